@@ -1,15 +1,19 @@
 (* Observation commands of the name domain (C13).  Definitions only. *)
 From Coq Require Import List NArith Bool String.
 Import ListNotations.
-Require Import VParse VMeaning Names Show.
+Require Import VParse VMeaning Names NamesX Show.
 Open Scope N_scope.
 
-(* n.name s  ->  validate|normalized|canonical    validate = T when canonicalize_name(s, validate=True) returns (the same value), F when InvalidName *)
+(* n.name s  ->  validate|normalized|canonical    validate = T when canonicalize_name(s, validate=True) returns (the same value), F when InvalidName.
+   The model is the exact one (NamesX: the interpreter's full str.lower() table and the Final_Sigma rule). *)
 Definition obs_name (s : list N) : list N :=
-  fields [ match canonicalize_name true s with NOk _ => show_bool true | NInvalidName => show_bool false end;
+  fields [ match canonicalize_name_x true s with NOk _ => show_bool true | NInvalidName => show_bool false end;
            show_bool (is_normalized s);
-           match canonicalize_name false s with NOk c => c | NInvalidName => asc "E" end ].
+           match canonicalize_name_x false s with NOk c => c | NInvalidName => asc "E" end ].
+(* n.lower s  ->  s.lower()   (ties the generated tables of NamesX to the interpreter) *)
+Definition obs_lower (s : list N) : list N := lower_full s.
 
 Definition run_names (cmd : list N) (args : list (list N)) : option (list N) :=
   if seqb cmd (asc "n.name") then Some (obs_name (nth_str 0 args))
+  else if seqb cmd (asc "n.lower") then Some (obs_lower (nth_str 0 args))
   else None.
